@@ -445,9 +445,11 @@ def apply_step(root: FST, step: dict, base_opts: dict) -> Applied:
                                               'match_case', 'comprehension', 'type_param', 'operator', 'cmpop', 'arguments', 'boolop')
                                   if c != cat and not (c == 'expr' and cat == 'expr_store')), step['fsel'])
 
-            code_src = ap.code_src = donor_source(dcat, step)
+            code_src = ap.code_src = donor_source(dcat, step) if fault != 'put_none' else '<None>'
 
-            if fault == 'bad_src':
+            if fault == 'put_none':
+                code = None
+            elif fault == 'bad_src':
                 code_src = ap.code_src = pick(BAD_SRCS, step['fsel'])
                 code = code_src
                 ap.form = 'src'
